@@ -197,6 +197,10 @@ pub struct PeerPlan {
     pub max_accepts: u32,
     /// times (ms) at which the peer dials the client; each uses source port base+k
     pub dial_in: Vec<u64>,
+    /// dial in from the listening address itself (clients that bind outgoing sockets to their
+    /// listening port): the client then sees the same address it may also dial itself
+    #[serde(default)]
+    pub dial_in_same_addr: bool,
     pub has: Vec<bool>,
     pub bitfield: BitfieldMode,
     pub hs: Hs,
